@@ -49,6 +49,8 @@ where
 
     fn write(&mut self) -> Result<bool> {
         self.base.write_header_if_needed()?;
+        #[cfg(anydb_verif)]
+        rawdb::verif_tap::pause("raw-write:after-header");
 
         let stored_len = self.stored_len();
         let pushed_len = self.base.pushed().len();
@@ -88,7 +90,11 @@ where
                 }
                 self.region().truncate_write(from, &bytes)?;
             }
+            #[cfg(anydb_verif)]
+            rawdb::verif_tap::pause("raw-write:after-region-write");
             self.base.update_stored_len(stored_len + pushed_len);
+            #[cfg(anydb_verif)]
+            rawdb::verif_tap::pause("raw-write:after-publish");
         } else if truncated {
             self.region().truncate(from)?;
         }
